@@ -641,14 +641,14 @@ theorem centerV_mapV_node (t : RT) (k : Kind) (a : Rat) (ch : List VEnt) (hcov :
 theorem rowsFor_oncurve : rowsFor .oncurve = [⟨"OnCurve", [.oncurve], [one "curve" .curve]⟩] := by rfl
 theorem rowsFor_spline : rowsFor .spline = [⟨"Spline", [.spline], [one "curve" .curve]⟩] := by rfl
 
-def sketchRow : Row := ⟨"Sketch", [.grid, .firstpt, .face0, .sketchavg, .other], [many "faces" .face 1]⟩
+def sketchRow : Row := ⟨"Sketch", [.grid, .firstpt, .face0, .sketchavg, .other, .facept3], [many "faces" .face 1]⟩
 theorem rowsFor_grid : rowsFor .grid = [sketchRow] := by rfl
 theorem rowsFor_firstpt : rowsFor .firstpt = [sketchRow] := by rfl
 theorem rowsFor_face0 : rowsFor .face0 = [sketchRow] := by rfl
 theorem rowsFor_sketchavg : rowsFor .sketchavg = [sketchRow] := by rfl
 
 def sketchKind : Kind → Bool
-  | .grid | .firstpt | .face0 | .sketchavg => true
+  | .grid | .firstpt | .face0 | .sketchavg | .facept3 => true
   | _ => false
 
 theorem wfNode_sketch (k : Kind) (hk : sketchKind k = true) (ch : List VEnt) (h : wfNode k ch = true) :
@@ -679,7 +679,7 @@ theorem wfNode_curveEdge (k : Kind) (hk : k = .oncurve ∨ k = .spline) (ch : Li
 
 /-- kinds of the second group: edges on curves, sketches -/
 def coveredKind2 : Kind → Bool
-  | .spline | .oncurve | .grid | .firstpt | .face0 | .sketchavg => true
+  | .spline | .oncurve | .grid | .firstpt | .face0 | .sketchavg | .facept3 => true
   | _ => false
 
 theorem centerV_mapV_node2 (t : RT) (k : Kind) (a : Rat) (ch : List VEnt) (hcov : coveredKind2 k = true)
@@ -785,5 +785,11 @@ theorem centerV_mapV_node2 (t : RT) (k : Kind) (a : Rat) (ch : List VEnt) (hcov 
       apply List.map_congr_left
       intro f hf
       exact hfc f hf
+    · -- facept3 (SplineRound: fourth corner of the first face)
+      subst hch
+      simp only [centerV, ruleOf, CRule.eval, childrenV, CRule.isCurveOf, Bool.false_eq_true, if_false,
+        List.map_cons, List.head?_cons, Option.bind_some, hfp f0 (by simp), List.getElem?_map] at hc ⊢
+      rw [hc]
+      rfl
 
 end CBV.C09
